@@ -14,7 +14,11 @@ NAMES = ["train()", "eval()", "forward(batch)", "inverse(batch)", "save+load int
 def histories(tier, seed):
     r = rng(seed, "c14")
     hs = [[FWD], [EVAL, FWD, FWD, TRAIN, FWD, FWD], [FWD, FWD, EVAL, FWD, INV], [EVAL, INV, TRAIN, FWD, RELOAD, FWD, EVAL, FWD],
-          [INV, FWD, INV], [EVAL, FWD, RELOAD, FWD, FWD], [FWD, RELOAD, EVAL, RELOAD, FWD, INV], [TRAIN, INV, EVAL, INV]]
+          [INV, FWD, INV], [EVAL, FWD, RELOAD, FWD, FWD], [FWD, RELOAD, EVAL, RELOAD, FWD, INV], [TRAIN, INV, EVAL, INV],
+          # evaluation before any training, then the initialising step, then evaluation again (what was computed from the
+          # uninitialised parameters must not outlive the initialisation)
+          [EVAL, FWD, TRAIN, FWD, EVAL, FWD, INV], [EVAL, INV, FWD, TRAIN, FWD, EVAL, INV, FWD], [EVAL, FWD, TRAIN, FWD, FWD, EVAL, FWD, TRAIN, FWD],
+          [EVAL, FWD, RELOAD, TRAIN, FWD, EVAL, FWD], [EVAL, FWD, EVAL, FWD, TRAIN, FWD, EVAL, FWD, RELOAD, FWD]]
     n = 40 if tier == "quick" else 600
     maxlen = 12 if tier == "quick" else 30
     while len(hs) < n:
@@ -94,6 +98,16 @@ def run_actnorm(ck, drv, ops, dims, seed, mm):
                 ck.finding("ActNorm:parameters-changed-outside-initialisation",
                            "step %s changed (initialized, log_scale, shift): %s -> %s" % (NAMES[op], before[0], after[0]),
                            {"search": "an", **hist})
+        # whatever the history, a call that returns uses the parameters the layer holds NOW: y = exp(log_scale) * x + shift per
+        # feature / channel (forward), x = (y - shift) / exp(log_scale) (inverse)
+        if row["y"] is not None:
+            shp = [1, C] + [1] * (x.dim() - 2)
+            sc, sh_ = torch.exp(after[1]).reshape(shp), after[2].reshape(shp)
+            expect = sc * x + sh_ if op == FWD else (x - sh_) / sc
+            if not torch.allclose(row["y"], expect, atol=1e-9, rtol=1e-9):
+                ck.finding("ActNorm:output-not-from-current-parameters",
+                           "after %s the %s output differs from the affine map of the current log_scale / shift by %g"
+                           % (hist["ops"], "forward" if op == FWD else "inverse", float((row["y"] - expect).abs().max())), {"search": "an", **hist})
         impl_rows.append((row, after, bool(t.training)))
         batches.append(x if op in (FWD, INV) else None)
     if drv is None:
